@@ -143,6 +143,9 @@ def tlc(module, cfg, wd, workers=4, env=None, timeout=1800, simulate=None, depth
         m = re.match(r"Error: Invariant (\S+) is violated", line)
         if m:
             r.violated = m.group(1)
+        m = re.match(r"Error: Temporal property (\S+) was violated", line)
+        if m and r.violated is None:
+            r.violated = m.group(1)
         m = re.match(r"Error: (Action property|Temporal properties) (.*)", line)
         if m and r.violated is None:
             r.violated = m.group(2).strip() or "property"
